@@ -88,7 +88,8 @@ func runOverlap(id int, seed uint64, engine string, skipped []string, scratch st
 					s.Yield(ph)
 				}
 			}
-		} else if kind == "parts" && isReader() {
+		} else if (kind == "parts" || kind == "iter") && isReader() {
+			// unlimited reads ask for the partitions and scan on worker goroutines; a limited read opens its one iterator itself
 			s.Yield("PhReadScan")
 		}
 		return nil
@@ -289,6 +290,11 @@ func runOverlap(id int, seed uint64, engine string, skipped []string, scratch st
 	radvance := func(i int, label string, j map[string]interface{}) bool {
 		rt := rthreads[i]
 		p, done := s.Step(rt.t, 10*time.Second)
+		if rt.phase == "PhReadScan" && !done && p == "PhReadCheck" {
+			// the second read of the compaction record, after the scan, belongs to the scan step
+			j["record_read_again_after_the_scan"] = true
+			p, done = s.Step(rt.t, 10*time.Second)
+		}
 		if p == "<blocked>" {
 			res.fail = &lib.ImplFailure{CaseID: id, What: fmt.Sprintf("read thread %d blocked at %s", i, rt.phase), Case: js}
 			return false
@@ -422,7 +428,22 @@ func runOverlap(id int, seed uint64, engine string, skipped []string, scratch st
 		for n := 0; n < 60; n++ {
 			a := alive()
 			cur := be.B.GetCurrentRevision()
-			switch x := rnd.Intn(10); {
+			switch x := rnd.Intn(13); {
+			case x == 10:
+				if !update(1 + rnd.Intn(3)) {
+					return
+				}
+			case x >= 11:
+				if rt := rthreads[5]; rt == nil || rt.done {
+					rel := []relRev{{mode: "cur-k", k: uint64(rnd.Intn(6))}, {mode: "floor+k", k: uint64(rnd.Intn(3))}, {mode: "floor-k", k: uint64(1 + rnd.Intn(3))}}[rnd.Intn(3)]
+					if rev := resolve(rel, cur, floor, last); rev > 0 {
+						if !rspawn(5, rev, int64(rnd.Intn(3))) {
+							return
+						}
+					}
+				} else if !rstep(5) {
+					return
+				}
 			case x < 2 && next <= 3:
 				rel := []relRev{{mode: "cur-k", k: uint64(rnd.Intn(11))}, {mode: "floor+k", k: uint64(rnd.Intn(4))}, {mode: "floor-k", k: uint64(1 + rnd.Intn(5))}, {mode: "zero"}}[rnd.Intn(4)]
 				rev := resolve(rel, cur, floor, last)
